@@ -472,7 +472,14 @@ struct StorHarness : Harness
                  (unsigned long long)(g.chance(0.5) ? 0 : g.below(100000)));
         ops.push_back(b);
         int na = (int)g.range(1, 5);
+        int again_at = g.chance(0.1) ? (int)g.below((uint64_t)na + 1) : -1;
         for (int i = 0; i < na; ++i) {
+            if (i == again_at) {
+                // a second start on a device that is already running is
+                // refused and changes nothing
+                snprintf(b, sizeof(b), "startagain slot=%d", slot);
+                ops.push_back(b);
+            }
             std::string a = gen_append(g, kind == "raw");
             snprintf(b, sizeof(b), a.c_str(), slot);
             ops.push_back(b);
@@ -937,8 +944,10 @@ struct StorHarness : Harness
                 if (pwrite_failed_since(ev0) && st == DeviceState_Running)
                     probe("reach.header_write_failed_in_start");
                 if (rc != Device_Ok) {
-                    if (!c->faults)
-                        oracle_fail("C14.start_failed",
+                    const char* sid =
+                      s.kind == "raw" ? "C14.start_failed" : "C15.start_failed";
+                    if (!c->faults && oracle_gates(sid))
+                        oracle_fail(sid,
                                     "%s: storage_start failed without any "
                                     "injected fault (path %s)",
                                     s.kind.c_str(), s.path.c_str());
@@ -955,6 +964,23 @@ struct StorHarness : Harness
                 if (s.next_frame_id)
                     probe("reach.first_frame_id_nonzero");
                 probe("n.starts");
+            } else if (op.name == "startagain") {
+                if (!s.dev || !s.started)
+                    continue;
+                enum DeviceStatusCode rc = storage_start(s.dev);
+                enum DeviceState st = storage_get_state(s.dev);
+                probe("reach.start_while_running");
+                const char* oid = s.kind == "raw" ? "C14.second_start_disturbs"
+                                                  : "C15.second_start_disturbs";
+                // (under C16 the run goes on: what matters there is what
+                // happens to the descriptors afterwards)
+                if (!c->faults && oracle_gates(oid) &&
+                    (rc == Device_Ok || st != DeviceState_Running))
+                    oracle_fail(oid,
+                                "%s: storage_start on a running device "
+                                "returned %d and left the device in state %d "
+                                "(it must be refused and leave it Running)",
+                                s.kind.c_str(), (int)rc, (int)st);
             } else if (op.name == "append" || op.name == "bigappend") {
                 if (!s.dev || !s.started)
                     continue;
@@ -994,8 +1020,10 @@ struct StorHarness : Harness
                     continue;
                 }
                 if (rc != Device_Ok) {
-                    if (!c->faults)
-                        oracle_fail("C14.append_failed",
+                    const char* aid = s.kind == "raw" ? "C14.append_failed"
+                                                      : "C15.append_failed";
+                    if (!c->faults && oracle_gates(aid))
+                        oracle_fail(aid,
                                     "%s: storage_append failed without any "
                                     "injected fault",
                                     s.kind.c_str());
